@@ -336,7 +336,7 @@ func runStress(c Case) (out vstat.Outcome, err error) {
 		for _, x := range foreign {
 			h.violate("stream %s was handed a message not meant for it: %s", f.key, x)
 		}
-		seen := map[int]bool{}
+		seen := map[int]int{}
 		last := map[int]int{} // issuer -> last direct seq
 		direct := 0
 		for _, x := range obs {
@@ -345,10 +345,25 @@ func runStress(c Case) (out vstat.Outcome, err error) {
 				continue
 			}
 			m := msgs[x]
-			if seen[x] {
-				h.violate("stream %s saw message %d twice", f.key, x)
+			seen[x]++
+			allowed := 1
+			if m.kind == opBroadcast && len(m.tags) == 1 {
+				// one index entry per mention of the tag at registration (see extraCopies)
+				for t := range m.tags {
+					k := 0
+					for _, st := range f.spec.Tags {
+						if st == t {
+							k++
+						}
+					}
+					if k > allowed {
+						allowed = k
+					}
+				}
 			}
-			seen[x] = true
+			if seen[x] > allowed {
+				h.violate("stream %s saw message %d %d times", f.key, x, seen[x])
+			}
 			if m.kind == opBroadcast {
 				ok := false
 				for t := range m.tags {
